@@ -106,17 +106,17 @@ func (p *Prog) narrowArith() []narrowSite {
 // Sites confirmed by reading where the 16-bit result cannot wrap, keyed by function and source
 // expression, one line of reason each. Anything else is reported.
 var narrowArithAllowed = map[string]string{
-	"(*roaring.Bitmap).NextAbsentValue|containerKey + 1":                       "guarded by containerKey < nextContainerKey, so containerKey <= 65534",
-	"(*roaring.arrayContainer).nextAbsentValue|result.value + 1":               "only when result.index == cardinality-2, so result.value < maximum <= 65535",
-	"(*roaring.arrayContainer).nextAbsentValue|ac.content[midIndex] - target":  "midIndex > result.index and content is sorted, so content[midIndex] >= target",
-	"(*roaring.arrayContainer).nextAbsentValue|ac.content[low] + 1":            "low < cardinality-1 on this path, so content[low] < maximum <= 65535",
-	"(*roaring.arrayContainer).previousAbsentValue|result.value - 1":           "result.index == 1, so result.value > minimum >= 0",
-	"(*roaring.arrayContainer).previousAbsentValue|target - ac.content[midIndex]": "midIndex < result.index and content is sorted, so content[midIndex] <= target",
-	"(*roaring.arrayContainer).previousAbsentValue|ac.content[high] - 1":       "high >= 1 on this path, so content[high] > minimum >= 0",
-	"(*roaring.bitmapContainer).resetTo|r.start + r.length":                    "interval invariant start+length <= 65535 (checked by validate for decoded data)",
-	"(*roaring.runContainer16).deleteAt|rc.iv[ci].start + *curPosInIndex":      "cursor position lies inside the interval: start+pos <= last <= 65535",
-	"(*roaring.runContainer16).invert|cur.last() + 1":                          "cur is not the last interval, so cur.last() < next.start <= 65535",
-	"(*roaring.runContainer16).rank|x - rc.iv[w].start":                        "x lies inside interval w on this path (already == true)",
+	"(*roaring.Bitmap).NextAbsentValue|containerKey + 1":                                  "guarded by containerKey < nextContainerKey, so containerKey <= 65534",
+	"(*roaring.arrayContainer).nextAbsentValue|result.value + 1":                          "only when result.index == cardinality-2, so result.value < maximum <= 65535",
+	"(*roaring.arrayContainer).nextAbsentValue|ac.content[midIndex] - target":             "midIndex > result.index and content is sorted, so content[midIndex] >= target",
+	"(*roaring.arrayContainer).nextAbsentValue|ac.content[low] + 1":                       "low < cardinality-1 on this path, so content[low] < maximum <= 65535",
+	"(*roaring.arrayContainer).previousAbsentValue|result.value - 1":                      "result.index == 1, so result.value > minimum >= 0",
+	"(*roaring.arrayContainer).previousAbsentValue|target - ac.content[midIndex]":         "midIndex < result.index and content is sorted, so content[midIndex] <= target",
+	"(*roaring.arrayContainer).previousAbsentValue|ac.content[high] - 1":                  "high >= 1 on this path, so content[high] > minimum >= 0",
+	"(*roaring.bitmapContainer).resetTo|r.start + r.length":                               "interval invariant start+length <= 65535 (checked by validate for decoded data)",
+	"(*roaring.runContainer16).deleteAt|rc.iv[ci].start + *curPosInIndex":                 "cursor position lies inside the interval: start+pos <= last <= 65535",
+	"(*roaring.runContainer16).invert|cur.last() + 1":                                     "cur is not the last interval, so cur.last() < next.start <= 65535",
+	"(*roaring.runContainer16).rank|x - rc.iv[w].start":                                   "x lies inside interval w on this path (already == true)",
 	"(*roaring.runIterator16).nextMany|ri.rc.iv[ri.curIndex].length - ri.curPosInIndex":   "guarded by length >= curPosInIndex",
 	"(*roaring.runIterator16).nextMany|ri.rc.iv[ri.curIndex].start + ri.curPosInIndex":    "cursor position lies inside the interval",
 	"(*roaring.runIterator16).nextMany64|ri.rc.iv[ri.curIndex].length - ri.curPosInIndex": "guarded by length >= curPosInIndex",
@@ -138,17 +138,17 @@ var narrowScope = []string{
 }
 
 var narrowScopeAllowed = map[string]string{
-	"(*roaring.Bitmap).NextAbsentValue|containerKey + 1":     "guarded by containerKey < nextContainerKey",
-	"(*roaring.Bitmap).PreviousAbsentValue|containerKey - 1": "containerIndex > 0 on this path and keys are strictly increasing, so containerKey >= 1",
-	"(*roaring.arrayContainer).nextAbsentValue|result.value + 1":               "only when result.index == cardinality-2, so result.value < maximum",
-	"(*roaring.arrayContainer).nextAbsentValue|ac.content[midIndex] - target":  "content[midIndex] >= target (sorted, midIndex > result.index)",
-	"(*roaring.arrayContainer).nextAbsentValue|ac.content[low] + 1":            "low < cardinality-1, so content[low] < maximum",
-	"(*roaring.arrayContainer).previousAbsentValue|result.value - 1":           "result.index == 1, so result.value > minimum",
+	"(*roaring.Bitmap).NextAbsentValue|containerKey + 1":                          "guarded by containerKey < nextContainerKey",
+	"(*roaring.Bitmap).PreviousAbsentValue|containerKey - 1":                      "containerIndex > 0 on this path and keys are strictly increasing, so containerKey >= 1",
+	"(*roaring.arrayContainer).nextAbsentValue|result.value + 1":                  "only when result.index == cardinality-2, so result.value < maximum",
+	"(*roaring.arrayContainer).nextAbsentValue|ac.content[midIndex] - target":     "content[midIndex] >= target (sorted, midIndex > result.index)",
+	"(*roaring.arrayContainer).nextAbsentValue|ac.content[low] + 1":               "low < cardinality-1, so content[low] < maximum",
+	"(*roaring.arrayContainer).previousAbsentValue|result.value - 1":              "result.index == 1, so result.value > minimum",
 	"(*roaring.arrayContainer).previousAbsentValue|target - ac.content[midIndex]": "content[midIndex] <= target",
-	"(*roaring.arrayContainer).previousAbsentValue|ac.content[high] - 1":       "high >= 1, so content[high] > minimum",
-	"(*roaring.bitmapContainer).nextAbsentValue|x++":     "x is a word index (< 1024)",
-	"(*roaring.bitmapContainer).previousAbsentValue|x++": "x is a word index (< 1024)",
-	"(*roaring.unsetIterator).Next|iui.emptyContainerVal++": "the wrap to 0 is the intended end-of-chunk test on the next line",
+	"(*roaring.arrayContainer).previousAbsentValue|ac.content[high] - 1":          "high >= 1, so content[high] > minimum",
+	"(*roaring.bitmapContainer).nextAbsentValue|x++":                              "x is a word index (< 1024)",
+	"(*roaring.bitmapContainer).previousAbsentValue|x++":                          "x is a word index (< 1024)",
+	"(*roaring.unsetIterator).Next|iui.emptyContainerVal++":                       "the wrap to 0 is the intended end-of-chunk test on the next line",
 }
 
 func inNarrowScope(f *ssa.Function) bool {
